@@ -26,6 +26,8 @@ HARNESSES.update({
     'k_hdr_isa_values': _h('tags.rs', 'full', 'constants', ['HeaderTagISA'], ['C20']),
     'k_hdr_tag_type_values': _h('tags.rs', 'full', 'constants', ['HeaderTagType', 'HeaderTagType::count'], ['C20']),
     'k_hdr_tag_flag_values': _h('tags.rs', 'full', 'constants', ['HeaderTagFlag'], ['C20']),
+    'k_hdrtag_ref_from_slice_4mod8': _h('tags.rs', 'full', 'all 24 bytes symbolic; slice at address 4 mod 8 (header type with natural alignment 4)',
+                                       ['BytesRef::try_from', 'DynSizedStructure::ref_from_slice'], ['C14', 'C09']),
     'k_hdr_tag_header_decode': _h('tags.rs', 'full', 'all 8 header bytes, type <= 10, flags <= 1',
                                   ['HeaderTagHeader::typ', 'HeaderTagHeader::flags', 'HeaderTagHeader::size'], ['C11']),
     'k_hdr_tag_header_new': _h('tags.rs', 'full', 'all 11 types x 2 flags x all u32 size', ['HeaderTagHeader::new'], ['C07']),
